@@ -523,5 +523,7 @@ pub fn run(tier: Tier) -> i32 {
     ctx.assume("racer: real threads, real loopback UDP, child processes; interleavings are sampled (sharpened by pre-emption at generated points), not enumerated; a replay re-runs the case several times");
     ctx.run_part(Shutdowns, tier.pick(500, 12_000));
     super::c08_racer::run_racer(&mut ctx, tier);
+    ctx.assume("busy-handlers: real threads and loopback UDP; which handlers are inside a synchronous stretch at the moment of shutdown is computed from the generated durations and the measured delay (15 ms margin)");
+    super::c08_busy::run_busy(&mut ctx, tier);
     ctx.finish()
 }
